@@ -475,6 +475,16 @@ def _eq(a: Any, b: Any) -> Any:
             SBool(la.length == lb.length),
             ForAllInt(lambda i: Implies(And(i >= 0, SBool(i.t < la.length)), eq(la.get(i), lb.get(i)))),
         )
+    if (isinstance(a, SSet) or isinstance(b, SSet)) and isinstance(a, (SSet, set, frozenset)) and isinstance(b, (SSet, set, frozenset)):
+        # set equality = same members; quantifier-free when both sides are finite enumerations
+        other = a if isinstance(a, SSet) else b
+        sa = a if isinstance(a, SSet) else SSet.of_values(other.shape, sorted(a, key=repr))
+        sb = b if isinstance(b, SSet) else SSet.of_values(other.shape, sorted(b, key=repr))
+        ta, tb = getattr(sa, "terms", None), getattr(sb, "terms", None)
+        if ta is not None and tb is not None:
+            return SBool(z3.And(*[sb.member(t) for t in ta], *[sa.member(t) for t in tb]))
+        w = sa.shape.fresh("elt")
+        return SBool(z3.ForAll([w.t], sa.member(w.t) == sb.member(w.t)))
     if isinstance(a, SObj) or isinstance(b, SObj):
         return a is b
     if isinstance(a, Sym) or isinstance(b, Sym):
@@ -485,6 +495,14 @@ def _eq(a: Any, b: Any) -> Any:
     return a == b
 
 
+def _has_nonempty_literal(t: Any) -> bool:
+    if z3.is_string_value(t):
+        return len(t.as_string()) > 0
+    if z3.is_app(t) and t.decl().kind() == z3.Z3_OP_SEQ_CONCAT:
+        return any(_has_nonempty_literal(c) for c in t.children())
+    return False
+
+
 def truth(v: Any) -> Any:
     """Python truthiness: concrete bool, or SBool."""
     if isinstance(v, SBool):
@@ -492,6 +510,8 @@ def truth(v: Any) -> Any:
     if isinstance(v, SInt):
         return SBool(v.t != 0)
     if isinstance(v, (SStr, SBytes)):
+        if _has_nonempty_literal(v.t):
+            return True  # a concatenation with a non-empty literal piece is non-empty
         return SBool(z3.Length(v.t) > 0)
     if isinstance(v, SFloat):
         return SBool(z3.Not(z3.fpIsZero(v.t)))
@@ -502,7 +522,7 @@ def truth(v: Any) -> Any:
     if isinstance(v, SSet):
         return v.nonempty()
     if isinstance(v, SMap):
-        raise Unsupported("truthiness of a symbolic map")
+        return SBool(v.size > 0)  # a dict is truthy iff non-empty; ``size`` is |dict| (same term ``len()`` returns)
     if isinstance(v, SOpaque):
         if _CTX:  # an opaque *reference* whose methods are given by contract ("Kind.__bool__" / "Kind.__len__")
             H = _CTX[-1].handlers
@@ -774,7 +794,9 @@ class SSet:
     @staticmethod
     def of_values(shape: Shape, items: list[Any]) -> "SSet":
         ts = [x.t if isinstance(x, Sym) else (z3.StringVal(x) if isinstance(x, str) else z3.IntVal(x)) for x in items]
-        return SSet(shape, lambda t: z3.Or(*[t == c for c in ts]) if ts else z3.BoolVal(False))
+        r = SSet(shape, lambda t: z3.Or(*[t == c for c in ts]) if ts else z3.BoolVal(False))
+        r.terms = ts  # type: ignore[attr-defined]  # finite enumeration: lets set equality stay quantifier-free
+        return r
 
     def has(self, v: Any) -> SBool:
         t = v.t if isinstance(v, Sym) else (z3.StringVal(v) if isinstance(v, str) else z3.IntVal(v))
